@@ -1212,6 +1212,27 @@ def disp8(ctx) -> List[Ob]:
             if sel is not None:
                 conds_ = [A.unparse(c_) for g_ in sel.generators for c_ in g_.ifs]
                 out.append(bad("DISP-8", td.qualname, f"field {fld_} written whole", ctx.where(td, sel), f"the writer keeps only the entries of {fld_} for which {conds_[0][:50]}: the written table is a selection (an entry for a declared back edge fails a test against the filtered view), the graph read back has a smaller table"))
+    # (d++) a field is written on every path through its arm, and a plain field as the attribute itself
+    PLAIN = {"kind", "header", "exiting", "variable", "begin", "end"}
+    for arm in arms:
+        if arm.test is None:
+            continue
+        for s_ in A.walk_no_nested(ast.Module(arm.body, [])):
+            if not (isinstance(s_, ast.Assign) and len(s_.targets) == 1 and isinstance(s_.targets[0], ast.Subscript)):
+                continue
+            t_ = s_.targets[0]
+            if not (isinstance(t_.slice, ast.Constant) and isinstance(t_.slice.value, str) and (isinstance(t_.value, ast.Subscript) or (isinstance(t_.value, ast.Name) and t_.value.id in entry_aliases))):
+                continue
+            fld_ = t_.slice.value
+            conds = [a for a in A.ancestors(s_) if isinstance(a, ast.If) and any(a is x for b_ in arm.body for x in ast.walk(b_))]
+            if conds:
+                out.append(bad("DISP-8", td.qualname, f"field {fld_} written on every path", ctx.where(td, s_), f"'{fld_}' is written only under '{A.unparse(conds[0].test)[:60]}': when the test fails the key is missing from the written form and the reader has to guess it (a value table rebuilt by enumeration numbers the targets 0, 1, .. whatever the keys were)"))
+            if fld_ in PLAIN:
+                from .common import expand_aliases as _xa
+
+                v_ = _xa(ctx, td, s_.value) if isinstance(s_.value, ast.Name) else s_.value
+                if not (isinstance(v_, ast.Attribute) and v_.attr == fld_):
+                    out.append(bad("DISP-8", td.qualname, f"field {fld_} written as it is", ctx.where(td, s_), f"'{fld_}' is written as {A.unparse(s_.value)[:50]}, not as the block's own attribute: the reader rebuilds each sub-graph from the recorded header / exiting names, a resolved or derived name sends it to another block"))
     # (d'') the writer descends into every region and writes a canonical member list
     for arm in arms:
         if arm.test is not None and "RegionBlock" in _named_classes(arm.test):
@@ -1684,4 +1705,15 @@ def disp12(ctx) -> List[Ob]:
     ebi = io["extract_block_info"]
     copies = [st for st in A.walk_no_nested(ebi.node) if isinstance(st, (ast.Assign, ast.AnnAssign)) and st.value is not None and _is_copy(st.value)]
     out.append(ok("DISP-12", ebi.qualname, "entries are copied before use", ctx.where(ebi, copies[0]) if copies else ctx.where(ebi), f"{len(copies)} copying definition(s); {n_ob} uncopied alias(es) examined", nontrivial=False))
+    # a block name is compared with a name by equality: `name in <str>` is a substring test
+    from .. import types as _T
+
+    for fn in readers:
+        env = ctx.typer.env(fn)
+        for cmp_ in A.walk_no_nested(fn.node):
+            if isinstance(cmp_, ast.Compare) and len(cmp_.ops) == 1 and isinstance(cmp_.ops[0], (ast.In, ast.NotIn)) and isinstance(cmp_.comparators[0], ast.Name):
+                t_ = ctx.typer.type_of(cmp_.comparators[0], env, fn)
+                kinds = {m_[0] for m_ in _T.members(_T.strip_none(t_))}
+                if "str" in kinds:
+                    out.append(bad("DISP-12", fn.qualname, "membership in a name: " + A.alpha_key(cmp_), ctx.where(fn, cmp_), f"'{A.unparse(cmp_)[:50]}': {cmp_.comparators[0].id} can be a str, so this asks whether one name is a *substring* of the other ('python_bytecode_block_2' in 'python_bytecode_block_21'): the walk over a region stops at the wrong member and the rest of the region is not read"))
     return out
